@@ -430,6 +430,12 @@ impl MutableBuffer {
                 // Safety: data was allocated with layout
                 unsafe { std::alloc::dealloc(self.as_mut_ptr(), self.layout) };
                 self.layout = new_layout;
+                #[cfg(feature = "pool")]
+                {
+                    if let Some(reservation) = self.reservation.lock().unwrap().as_mut() {
+                        reservation.resize(self.layout.size());
+                    }
+                }
             }
             return Ok(());
         }
@@ -1554,6 +1560,19 @@ mod tests {
             // The capacity is exactly the requested size, not rounded up
             assert_eq!(buffer.capacity(), 50);
             assert_eq!(pool.used(), 50);
+        }
+
+        #[test]
+        fn test_shrink_empty_buffer_with_pool() {
+            let pool = TrackingMemoryPool::default();
+            let mut buffer = MutableBuffer::with_capacity(100);
+            buffer.claim(&pool);
+            assert_eq!(pool.used(), 128);
+
+            // Shrinking an empty buffer frees its allocation entirely
+            buffer.shrink_to_fit();
+            assert_eq!(buffer.capacity(), 0);
+            assert_eq!(pool.used(), 0);
         }
 
         #[test]
